@@ -6,8 +6,9 @@ CONSTANTS
   Atoms <- AtomsKnownW
   Prefix <- PfxABS
   MaxLen = 10
+  MaxAtoms = 99
   Cfgs <- CfgsNA12
   Junk = 34
   EmitOn = TRUE
-INVARIANTS ResumeEqFresh Stable OffsSane Emit
+INVARIANTS ResumeEqFresh Stable OffsSane Emit EmitTwo EmitByte
 CHECK_DEADLOCK FALSE
